@@ -350,6 +350,22 @@ def r_protocol_corpus(d):
             exp = S.first_matching(order, req, tls, waptop, {})
             if got != exp:
                 return {"confirmed": True, "request": req, "tls": tls, "claimed_by": got, "specification": exp}
+    # WAP is detected from the request headers as documented: WML in Accept (first, only or later entry) plus a WAP device header
+    blocks = [("GET /x HTTP/1.0\r\nAccept: text/vnd.wap.wml\r\nX-Wap-Profile: \"http://x/y\"\r\n\r\n", "WAPProtocol"),
+              ("GET /x HTTP/1.0\r\nAccept: text/html, text/vnd.wap.wml\r\nX-Up-Devcap-Max-Pdu: 1024\r\n\r\n", "WAPProtocol"),
+              ("GET /x HTTP/1.0\r\nAccept: text/vnd.wap.wml, text/html\r\nX-Wap-Profile: p\r\n\r\n", "WAPProtocol"),
+              ("GET /x HTTP/1.0\r\nAccept: text/html\r\nX-Wap-Profile: p\r\n\r\n", "HTTPProtocol"),
+              ("GET /x HTTP/1.0\r\nAccept: text/vnd.wap.wml\r\n\r\n", "HTTPProtocol")]
+    ref = None
+    for req, _doc in blocks:
+        try:
+            got = type(testutil.get_testing_protocol(req, cfg)).__name__
+        except Exception as e:  # noqa
+            return {"confirmed": True, "request": req, "raised": repr(e)}
+        exp = S.first_matching(order, req.split("\r\n")[0] + "\r\n", False, waptop,
+                               {k.strip().lower(): v for k, _c, v in (l.partition(":") for l in req.split("\r\n")[1:] if l)})
+        if got != exp:
+            return {"confirmed": True, "request": req, "claimed_by": got, "specification": exp}
     return {"confirmed": None, "note": "corpus agrees with the specification"}
 
 
@@ -1117,7 +1133,8 @@ def r_site_crawl(d):
         files = {"plain.txt": b"hello\n", "what?.txt": b"question\n", "notes": b"n\n", "notes?v=2": b"v2\n", "a b&c=d.txt": b"amp\n",
                  "100%.txt": b"pct\n", "empty.bin": b"", "blk.bin": bytes(range(256)) * 16, "big.bin": bytes(range(256)) * 17 + b"x",
                  "why?really?.txt": b"two\n",
-                 "100%20cotton.txt": b"literal percent-twenty\n", "rate%3Dlow.txt": b"literal percent-3D\n", "50%25off.txt": b"literal percent-25\n"}
+                 "100%20cotton.txt": b"literal percent-twenty\n", "rate%3Dlow.txt": b"literal percent-3D\n", "50%25off.txt": b"literal percent-25\n",
+                 "cafe\u0301 menu.txt": b"decomposed accent\n", "\u212bngstrom.txt": b"canonical singleton\n"}
         os.makedirs(os.path.join(top, "sub"))
         for n, data in files.items():
             open(os.path.join(top, n), "wb").write(data)
@@ -1179,6 +1196,11 @@ def r_site_crawl(d):
             resp, logs = _serve(req, cfg)
             if internal_errors(logs) or not resp:
                 return {"confirmed": True, "request": repr(req), "log": internal_errors(logs)[:2], "reply": repr(resp[:40])}
+        # URL: items advertised by the Gopher family are served by this server (the HTML redirect page)
+        for sel_ in (b"URL:http://www.example.org/x//y", b"/URL:http://www.example.org/x"):
+            out, _l = _serve(sel_ + b"\r\n", cfg)
+            if out.startswith(b"3") or b"www.example.org" not in out:
+                return {"confirmed": True, "scenario": "the Gopher item %r (a URL: link as menus advertise it) is not answered with the redirect page" % sel_, "response": repr(out[:200])}
         return {"confirmed": None, "note": "crawl consistent"}
     finally:
         shutil.rmtree(top, ignore_errors=True)
@@ -1803,7 +1825,8 @@ def r_sidecars(d):
         cfg.set("pygopherd", "root", top)
         hb.rootpath = None; hm.rootpath = None; hm.handlers = None
         gopherentry.eaexts = None
-        texts = {"notes.txt.abstract": "First paragraph.\n\nSecond paragraph   \n  indented\n\n\nlast", "notes.txt.keywords": "k1\n\nk2\n",
+        texts = {"plain.txt.3d": "x" * 70 + " filler words +ADMIN: Admin: Mallory <m@evil.example> and more filler text so that the line is long enough to be folded twice +ABSTRACT: injected\n",
+                 "notes.txt.abstract": "First paragraph.\n\nSecond paragraph   \n  indented\n\n\nlast", "notes.txt.keywords": "k1\n\nk2\n",
                  "report.abstract": "Abstract of the extensionless report\n", "sub/.abstract": "Directory abstract\n\nwith a blank line\n"}
         os.makedirs(os.path.join(top, "sub"))
         for n in ("notes.txt", "report", "report.txt", "plain.txt", "sub/x.txt"):
@@ -2001,6 +2024,11 @@ REALISERS.append(("pygopherd/handlers/base.py::VFS_Real.copyto", lambda d: (_fir
 
 
 # ------------------------------------------------------------------- WAP text-to-WML conversion (C04 stand-in)
+def urllib_quote(x):
+    import urllib.parse
+    return urllib.parse.quote(x)
+
+
 def r_wap(d):
     """text/plain documents fetched through /wap/: one WML line per LF-delimited source line (escaped, trailing blanks
     dropped), a paragraph break per empty line - also when a line contains form feeds, lone CRs, VT, FS/GS/RS or the
@@ -2039,6 +2067,38 @@ def r_wap(d):
             want = b"".join((_html.escape(l.rstrip()).encode("utf-8", "surrogateescape") + b"\n") if l.rstrip() else b"</p>\n<p>" for l in lines)
             if got != want:
                 return {"confirmed": True, "scenario": "WML conversion of %s is not one line per source line" % n, "deck": repr(got[:200]), "reference": repr(want[:200])}
+        # a Content-Length header, if any protocol variant sends one, is the length of the body that follows
+        for n, c in list(files.items()) + [("blob.bin", bytes(range(256)) * 3)]:
+            open(os.path.join(top, n), "wb").write(c)
+            for prefix in (b"", b"/wap"):
+                for verb in (b"GET", b"HEAD"):
+                    out, _l = _serve(verb + b" " + prefix + b"/" + n.encode() + b" HTTP/1.0\r\n\r\n", cfg)
+                    head, sep, body = out.partition(b"\r\n\r\n")
+                    for hl in head.split(b"\r\n")[1:]:
+                        if hl.lower().startswith(b"content-length:"):
+                            try:
+                                adv = int(hl.split(b":", 1)[1])
+                            except ValueError:
+                                adv = -1
+                            if verb == b"GET" and adv != len(body):
+                                return {"confirmed": True, "scenario": "%s %s/%s: Content-Length advertises %d bytes but %d body bytes follow" % (verb.decode(), prefix.decode(), n, adv, len(body))}
+        # the document's name never adds attributes to the WML card
+        evil = 'memo" onenterforward="#evil" x="y.txt'
+        open(os.path.join(top, evil), "w").write("text\n")
+        out, _l = _serve(b"GET /wap/" + urllib_quote(evil).encode() + b" HTTP/1.0\r\n\r\n", cfg)
+        import re as _re3
+        m_ = _re3.search(rb"<card([^>]*)>", out)
+        if m_ is not None:
+            attrs = set(_re3.findall(rb'\s([A-Za-z:_-]+)=', m_.group(1)))
+            if not attrs <= {b"id", b"title", b"newcontext"}:
+                return {"confirmed": True, "scenario": "a document name with a double quote added attributes to the WML <card>", "card": repr(m_.group(0)[:200])}
+        # a length announced for a document is the length of what is sent now, not of an earlier version of the file
+        for size in (1024, 4098, 1):
+            open(os.path.join(top, "report.bin"), "wb").write(b"r" * size)
+            out, _l = _serve(b"/report.bin\t+\r\n", cfg)
+            head, sep, body = out.partition(b"\r\n")
+            if head.startswith(b"+") and head[1:].lstrip(b"-").isdigit() and int(head[1:]) >= 0 and int(head[1:]) != len(body):
+                return {"confirmed": True, "scenario": "report.bin rewritten with %d bytes between two Gopher+ requests: the header says %s but %d body bytes follow" % (size, head.decode(), len(body))}
         return {"confirmed": None, "note": "WML conversion agrees with the line-by-line reference"}
     finally:
         shutil.rmtree(top, ignore_errors=True)
@@ -2204,3 +2264,106 @@ REALISERS.append(("pygopherd/handlers/html.py::", r_titles))
 
 for _m in ("isdir", "isfile", "exists", "stat", "listdir"):
     REALISERS.append(("pygopherd/handlers/base.py::VFS_Real." + _m, _first_confirmed(lambda d: r_dir(dict(d, obligation=d.get("obligation", "") + " prep_entries prepare")), r_c01_audit)))
+
+
+# ------------------------------------------------------------------- link targets and abstracts in every protocol (C06 stand-in)
+def r_links(d):
+    """One directory with a .Links file (URL:http://, URL:mailto:, URL:news:, a link to another host without and with
+    a leading slash, a link to this host's name on another port) and a local file, listed through Gopher, HTTP, WAP,
+    Gemini and Spartan: every protocol must point each entry at an equivalent target.  Then the abstract options:
+    informational lines are the same in every protocol unless abstract_entries = unsupported."""
+    import re as _re, shutil, tempfile, urllib.parse
+    import pygopherd.handlers.base as hb
+    import pygopherd.handlers.HandlerMultiplexer as hm
+    top = tempfile.mkdtemp(prefix="pyvc-links-", dir="/var/tmp")
+    try:
+        open(os.path.join(top, "local.txt"), "w").write("x")
+        open(os.path.join(top, ".abstract"), "w").write("Directory header line one\nline two\n")
+        open(os.path.join(top, "local.txt.abstract"), "w").write("About the local file\n")
+        open(os.path.join(top, ".Links"), "w").write(
+            "Name=Web\nType=h\nPath=URL:http://www.example.org/a?b=c\n\nName=Mail\nType=h\nPath=URL:mailto:user@example.org\n\nName=News\nType=h\nPath=URL:news:comp.lang.python\n\n"
+            "Name=Remote\nType=1\nPath=/pub\nHost=other.example\nPort=7070\n\nName=Finger\nType=0\nPath=lindner\nHost=other.example\nPort=79\n\n"
+            "Name=Same name other port\nType=1\nPath=/x\nHost=localhost\nPort=7071\n")
+
+        def targets(proto, out):
+            text = out.decode("utf-8", "replace")
+            res = {}
+            if proto == "gopher":
+                for l in text.split("\r\n"):
+                    f = l.split("\t")
+                    if len(f) >= 4 and f[0][:1] != "i":
+                        name, sel, host, port = f[0][1:], f[1], f[2], f[3]
+                        m = _re.match("(/|)URL:(.+)$", sel)
+                        res[name] = m.group(2) if m else "gopher://%s:%s/%s" % (host, port, urllib.parse.quote(f[0][0] + sel))
+            elif proto in ("http", "wap"):
+                for m in _re.finditer(r'(?is)<a [^>]*href="([^"]*)"[^>]*>(.*?)</a>', text):
+                    import html as _h
+                    label = _re.sub(r"(?s)<[^>]*>", "", m.group(2))
+                    res[_h.unescape(label).strip()] = _h.unescape(m.group(1))
+            else:
+                for l in text.split("\n"):
+                    m = _re.match(r"=[>:] (\S+) (.*)$", l)
+                    if m:
+                        res[m.group(2).strip()] = m.group(1)
+            return res
+
+        def canon(proto, t, cfgport):
+            # a relative / local link and a gopher URL to this very server and port are the same target
+            t = t.replace("/wap/", "/", 1) if proto == "wap" and t.startswith("/wap/") else t
+            m = _re.match(r"gopher://localhost:%s/.(.*)$" % cfgport, t)
+            if m:
+                t = urllib.parse.unquote(m.group(1))
+            return urllib.parse.unquote(t)
+
+        cfg = _config({})
+        cfg.set("pygopherd", "root", top)
+        cfg.set("handlers.dir.DirHandler", "cachetime", "0")
+        hb.rootpath = None; hm.rootpath = None; hm.handlers = None
+        reqs = {"gopher": (b"/\r\n", False), "http": (b"GET / HTTP/1.0\r\n\r\n", False), "wap": (b"GET /wap/ HTTP/1.0\r\n\r\n", False),
+                "gemini": (b"gemini://localhost/\r\n", True), "spartan": (b"localhost / 0\r\n", False)}
+        seen = {}
+        for proto, (rq, tls) in reqs.items():
+            out, _l = _serve(rq, cfg, tls=tls)
+            seen[proto] = {k: canon(proto, v, "64777") for k, v in targets(proto, out).items()}
+        ref = seen["gopher"]
+        for name in ("Web", "Mail", "News", "Remote", "Finger", "Same name other port"):
+            vals = {proto: seen[proto].get(name) for proto in seen}
+            want = ref.get(name)
+            for proto, v in vals.items():
+                if v is None or want is None:
+                    return {"confirmed": True, "scenario": "link entry %r is missing from the %s listing" % (name, proto), "targets": vals}
+                ok = v == want or (proto != "gopher" and name in ("Remote", "Finger", "Same name other port") and _re.sub(r":70/", ":7070/", v) == want)
+                if not ok and not (name in ("Remote", "Finger", "Same name other port") and v.split("/", 3)[:3] == want.split("/", 3)[:3] and v.rsplit("/", 1)[-1].lstrip("01") == want.rsplit("/", 1)[-1].lstrip("01")):
+                    return {"confirmed": True, "scenario": "link entry %r points at different targets in different protocols" % name, "targets": vals}
+        # ---- abstracts
+        def infos(proto, out):
+            text = out.decode("utf-8", "replace")
+            if proto.startswith("gopher"):
+                return [l.split("\t")[0][1:] for l in text.split("\r\n") if l.startswith("i") or l.startswith("+INFO: i")]
+            if proto == "http":
+                return None
+            return [l for l in text.split("\n") if l and not l.startswith("=") and not l.startswith("#") and not l[:2].isdigit()]
+        for headers in ("on", "off"):
+            for entries in ("always", "never"):
+                cfg.set("pygopherd", "abstract_headers", headers)
+                cfg.set("pygopherd", "abstract_entries", entries)
+                got = {}
+                for proto, rq, tls in (("gopher", b"/\r\n", False), ("gopher+", b"/\t+\r\n", False), ("gemini", b"gemini://localhost/\r\n", True), ("spartan", b"localhost / 0\r\n", False)):
+                    hb.rootpath = None; hm.rootpath = None; hm.handlers = None
+                    out, _l = _serve(rq, cfg, tls=tls)
+                    got[proto] = [x.strip() for x in (infos(proto, out) or []) if x.strip() and "footer" not in x.lower()]
+                hdr = {p_: [x for x in v if x.startswith("Directory header") or x == "line two"] for p_, v in got.items()}
+                if len({tuple(v) for v in hdr.values()}) != 1:
+                    return {"confirmed": True, "scenario": "abstract_headers=%s abstract_entries=%s: the directory's header lines differ between protocols" % (headers, entries), "header lines": hdr}
+        return {"confirmed": None, "note": "link targets and header lines agree across protocols"}
+    finally:
+        shutil.rmtree(top, ignore_errors=True)
+        hb.rootpath = None; hm.rootpath = None; hm.handlers = None
+
+
+for _q in ("pygopherd/protocols/http.py::HTTPProtocol.renderobjinfo", "pygopherd/protocols/http.py::HTTPProtocol.getrenderstr", "pygopherd/protocols/wap.py::WAPProtocol.getrenderstr",
+           "pygopherd/protocols/gemini.py::GeminiProtocol.renderobjinfo", "pygopherd/protocols/spartan.py::SpartanProtocol.renderobjinfo", "pygopherd/gopherentry.py::GopherEntry.geturl",
+           "pygopherd/protocols/base.py::BaseGopherProtocol.renderabstract"):
+    REALISERS.append((_q, r_links))
+_prev_wd = find("pygopherd/protocols/base.py::BaseGopherProtocol.writedir")
+REALISERS.append(("pygopherd/protocols/base.py::BaseGopherProtocol.writedir", lambda d: (_first_confirmed(r_links, _prev_wd)(d) if d.get("kind") == "standin" else _prev_wd(d))))
